@@ -239,6 +239,42 @@ MUTANTS = {
         "keys])",
         "      value += sum([energy_dict[layer][\"energy\"][key] for key in "
         "keys[:1]])")]),
+    "m51_input_io_placement_flipped": dict(expect=["C19"], edits=[E(
+        "qkeras/qtools/qenergy/qenergy.py",
+        '  if is_input_layer:\n    if rd_wr_on_io:\n      mode = "dram"\n'
+        '    else:\n      mode = "sram"\n',
+        '  if is_input_layer:\n    if rd_wr_on_io:\n      mode = "sram"\n'
+        '    else:\n      mode = "dram"\n')]),
+    "m52_write_dram_skips_sram_read": dict(expect=["C19"], edits=[E(
+        "qkeras/qtools/qenergy/qenergy.py",
+        '  if mode == "dram":\n    # load input from dram; wx_sizes[1]-> '
+        'input x quantizer bits\n    if rd_wr_on_io:\n',
+        '  if mode == "dram":\n    # load input from dram; wx_sizes[1]-> '
+        'input x quantizer bits\n    if not rd_wr_on_io:\n')]),
+    "m53_clone_only_trainable_weights": dict(expect=["C13"], edits=[E(
+        U, "  qmodel.set_weights(model.get_weights())\n\n  return qmodel",
+        "  for layer, qlayer in zip(model.layers, qmodel.layers):\n"
+        "    if layer.trainable_weights:\n"
+        "      qlayer.set_weights(layer.get_weights())\n\n  return qmodel")]),
+    "m54_get_exp_truncates_log2": dict(expect=["C18"], edits=[E(
+        QO + "quantizer_impl.py",
+        "      max_exp = math.ceil(np.log2(quantizer.max_val_po2))",
+        "      max_exp = int(np.log2(quantizer.max_val_po2))")]),
+    "m55_get_exp_ignores_small_max_value": dict(expect=["C18"], edits=[E(
+        QO + "quantizer_impl.py",
+        "  if 0 < quantizer.max_val_po2 <= 1:\n    exp_bits = non_sign_bits",
+        "  if 0 < quantizer.max_val_po2 < 1:\n    exp_bits = non_sign_bits")]),
+    "m56_grouped_conv_raw_kernel": dict(expect=["C11"], edits=[E(
+        "qkeras/qconvolutional.py",
+        "      outputs = self._jit_compiled_convolution_op(\n"
+        "          inputs, tf.convert_to_tensor(quantized_kernel)",
+        "      outputs = self._jit_compiled_convolution_op(\n"
+        "          inputs, tf.convert_to_tensor(self.kernel)")]),
+    "m57_isnum_rejects_floats_with_exponent": dict(expect=["C10"], edits=[E(
+        "qkeras/safe_eval.py",
+        "    except ValueError:\n      float(s)\n      return True",
+        "    except ValueError:\n      float(s)\n      return "
+        "'e' not in s.lower()")]),
 }
 
 BENIGN = {
@@ -334,4 +370,21 @@ BENIGN = {
         "qkeras/qconv2d_batchnorm.py",
         "      folded_bias = inv * (bias - new_mean) + beta",
         "      folded_bias = inv * bias - inv * new_mean + beta")]),
+    "b19_clone_per_layer_transfer": dict(props=["C13", "C12", "C20"], edits=[E(
+        U, "  qmodel.set_weights(model.get_weights())\n\n  return qmodel",
+        "  for layer, qlayer in zip(model.layers, qmodel.layers):\n"
+        "    if layer.get_weights():\n"
+        "      qlayer.set_weights(layer.get_weights())\n\n  return qmodel")]),
+    "b20_get_exp_folded_min": dict(props=["C16", "C17", "C18"], edits=[E(
+        QO + "quantizer_impl.py",
+        "      max_exp = math.ceil(np.log2(quantizer.max_val_po2))\n"
+        "      max_exp = min(max_exp, max_exp_orig)",
+        "      max_exp = min(math.ceil(np.log2(quantizer.max_val_po2)),\n"
+        "                    max_exp_orig)")]),
+    "b21_write_energy_io_mode_expression": dict(props=["C19"], edits=[E(
+        "qkeras/qtools/qenergy/qenergy.py",
+        '  if is_output_layer:\n    if rd_wr_on_io:\n      mode = "dram"\n'
+        '    else:\n      mode = "sram"\n',
+        '  if is_output_layer:\n    mode = "dram" if rd_wr_on_io else '
+        '"sram"\n')]),
 }
